@@ -68,6 +68,27 @@ def frac(x):
     return Fraction(x)
 
 
+def ecall(case, fn, names, args, defaults=()):
+    """call `fn` through the entry-point style of the case (robustness audit, class 'entry point'):
+    style 'kw'   - every argument by keyword,
+    style 'omit' - trailing arguments equal to their documented default are left out,
+    otherwise    - all positional (the historical style of this check).
+    `defaults` are the documented defaults of the LAST len(defaults) parameters."""
+    style = case.get("style")
+    args = list(args)
+    if style == "omit" and defaults:
+        k = len(args)
+        for d in reversed(defaults):
+            if k > 0 and type(args[k - 1]) is type(d) and args[k - 1] == d:
+                k -= 1
+            else:
+                break
+        args = args[:k]
+    if style == "kw":
+        return call(fn, **dict(zip(names, args)))
+    return call(fn, *args)
+
+
 # ----------------------------------------------------------------------------------------
 # trn
 # ----------------------------------------------------------------------------------------
@@ -115,11 +136,11 @@ def impl_trn(chk, case):
     ts = [(u, [py_elem(x, True, case.get("times", False)) for x in tr]) for u, tr in case["ts"]]
     out = {}
     f = io.StringIO()
-    _, e = call(write_trn, ts, f)
+    _, e = ecall(case, write_trn, ("transcripts", "trn"), (ts, f))
     out["w_file"], out["w_file_exc"] = f.getvalue(), e
     if case.get("via", "mem") == "disk":
         p = os.path.join(chk.workdir, "c.trn")
-        _, e = call(write_trn, ts, p)
+        _, e = ecall(case, write_trn, ("transcripts", "trn"), (ts, p))
         out["w_path_exc"] = e
         out["w_path"] = open(p, newline="").read() if e is None else None
         with open(p, "w", newline="") as g:  # an already open *disk* file
@@ -129,7 +150,12 @@ def impl_trn(chk, case):
         out["r_path"] = (r, e)
         with open(p, newline="") as g:
             out["r_disk"] = call(read_trn, g, False)
-    out["r_file"] = call(read_trn, io.StringIO(out["w_file"]), False)
+    out["r_file"] = ecall(case, read_trn, ("trn", "warn", "processes", "chunk_size"),
+                          (io.StringIO(out["w_file"]), bool(case.get("warn", False)), 0, 1000), (0, 1000))
+    if case.get("iter"):
+        # the generator entry point (what the command line uses): same list
+        from pydrobert.torch.data import read_trn_iter
+        out["r_iter"] = call(lambda: list(read_trn_iter(io.StringIO(out["w_file"]), False)))
     return out
 
 
@@ -148,6 +174,8 @@ def terms_trn(case, out):
         for k in ("r_path", "r_disk"):
             if out[k] != out["r_file"]:
                 meta.append(f"read_trn: {k} differs from reading the same bytes from a StringIO")
+    if "r_iter" in out and out["r_iter"] != out["r_file"]:
+        meta.append("read_trn_iter yields a different list than read_trn on the same bytes")
     return terms, meta
 
 
@@ -155,6 +183,9 @@ def impl_trn_text(chk, case):
     from pydrobert.torch.data import read_trn
 
     out = {"r_file": call(read_trn, io.StringIO(case["text"]), bool(case.get("warn", False)))}
+    if case.get("iter"):
+        from pydrobert.torch.data import read_trn_iter
+        out["r_iter"] = call(lambda: list(read_trn_iter(io.StringIO(case["text"]), False)))
     if case.get("via") == "disk":
         p = os.path.join(chk.workdir, "t.trn")
         with open(p, "w", newline="") as g:
@@ -169,6 +200,8 @@ def terms_trn_text(case, out):
     meta = []
     if "r_path" in out and out["r_path"] != out["r_file"]:
         meta.append("read_trn: path result differs from open-file result on the same text")
+    if "r_iter" in out and out["r_iter"] != out["r_file"]:
+        meta.append("read_trn_iter yields a different list than read_trn on the same text")
     return terms, meta
 
 
@@ -299,15 +332,16 @@ def impl_ctm(chk, case):
     ts, m, inv = py_ctm_ts(case), py_utt2wc(case), py_wc2utt(case)
     out = {}
     f = io.StringIO()
-    _, e = call(write_ctm, ts, f, m)
+    wn, rn = ("transcripts", "ctm", "utt2wc"), ("ctm", "wc2utt")
+    _, e = ecall(case, write_ctm, wn, (ts, f, m), ("A",))
     out["w_file"], out["w_exc"] = (f.getvalue() if e is None else None), e
     p = os.path.join(chk.workdir, "c.ctm")
-    _, e2 = call(write_ctm, ts, p, m)
+    _, e2 = ecall(case, write_ctm, wn, (ts, p, m), ("A",))
     out["w_path"], out["w_path_exc"] = (open(p, newline="").read() if e2 is None else None), e2
     if e is None:
-        out["r_file"] = call(read_ctm, io.StringIO(out["w_file"]), inv)
+        out["r_file"] = ecall(case, read_ctm, rn, (io.StringIO(out["w_file"]), inv), (None,))
         if e2 is None:
-            out["r_path"] = call(read_ctm, p, inv)
+            out["r_path"] = ecall(case, read_ctm, rn, (p, inv), (None,))
     return out
 
 
@@ -438,12 +472,15 @@ def impl_tg(chk, case):
     tr, st, en, name, pt, p = tg_args(case)
     out = {}
     f = io.StringIO()
-    _, e = call(write_textgrid, tr, f, st, en, name, pt, p)
+    wn = ("transcript", "tg", "start_time", "end_time", "tier_name", "point_tier", "precision")
+    wd = (None, None, "transcript", None, 3)
+    rn = ("tg", "tier_id", "fill_token")
+    _, e = ecall(case, write_textgrid, wn, (tr, f, st, en, name, pt, p), wd)
     out["w_file"], out["w_exc"] = (f.getvalue() if e is None else None), e
     path = os.path.join(chk.workdir, "c.TextGrid")
     if os.path.exists(path):
         os.remove(path)
-    _, e2 = call(write_textgrid, tr, path, st, en, name, pt, p)
+    _, e2 = ecall(case, write_textgrid, wn, (tr, path, st, en, name, pt, p), wd)
     out["w_path"], out["w_path_exc"] = (open(path, newline="").read() if e2 is None else None), e2
     # what the open-file entry point writes when the two options are left at their defaults
     f0 = io.StringIO()
@@ -451,10 +488,10 @@ def impl_tg(chk, case):
     out["w_file_defaults"], out["w_file_defaults_exc"] = (f0.getvalue() if e0 is None else None), e0
     if e is None:
         tid, fill = case.get("tier_id", 0), case.get("fill")
-        out["r_file"] = call(read_textgrid, io.StringIO(out["w_file"]), tid, fill)
+        out["r_file"] = ecall(case, read_textgrid, rn, (io.StringIO(out["w_file"]), tid, fill), (0, None))
         with open(path, "w", newline="") as g:
             g.write(out["w_file"])
-        out["r_path"] = call(read_textgrid, path, tid, fill)
+        out["r_path"] = ecall(case, read_textgrid, rn, (path, tid, fill), (0, None))
     return out
 
 
@@ -545,14 +582,18 @@ def impl_tok(chk, case):
     tr = [tuple(x) if isinstance(x, list) else x for x in case["tr"]]
     t2i = None if case.get("token2id") is None else {k: v for k, v in case["token2id"]}
     fs = case.get("fs")
-    val, e = call(transcript_to_token, tr, t2i, fs, case.get("unk"), bool(case.get("skip")))
+    val, e = ecall(case, transcript_to_token, ("transcript", "token2id", "frame_shift_ms", "unk", "skip_frame_times"),
+                   (tr, t2i, fs, case.get("unk"), bool(case.get("skip"))), (None, None, None, False))
     out = {"to_exc": e}
     if e is None:
         assert val.dtype == torch.long
         out["rows"] = val.tolist()
         i2t = None if case.get("id2token") is None else {k: v for k, v in case["id2token"]}
-        back, e2 = call(token_to_transcript, val, i2t, fs)
+        back, e2 = ecall(case, token_to_transcript, ("ref", "id2token", "frame_shift_ms"), (val, i2t, fs), (None, None))
         out["back"], out["back_exc"] = back, e2
+        if case.get("layout") and e2 is None:
+            # the same logical tensor as a non-contiguous view / other integer dtype: identical transcript
+            out["back_layout"] = call(token_to_transcript, relayout(val, case["layout"]), i2t, fs)
     return out
 
 
@@ -574,6 +615,8 @@ def terms_tok(case, out):
     if case.get("roundtrip") and fs and (ref is None or out.get("back_exc") is not None):
         terms["spec: tokens same, times within one frame shift"] = "false"
     if ref is not None:
+        if "back_layout" in out and out["back_layout"] != (out["back"], out["back_exc"]):
+            meta.append("token_to_transcript: result depends on the memory layout / integer dtype of the tensor (%s)" % case["layout"])
         if out["back_exc"] is not None:
             terms["token_to_transcript = model"] = "false"
         else:
@@ -607,21 +650,53 @@ def impl_tok_back(chk, case):
     from pydrobert.torch.data import token_to_transcript
 
     ref = torch.tensor(case["ref"], dtype=torch.long)
-    if case["shape"] == 1:
+    if case["shape"] == 1 and case.get("col"):
+        ref = ref.reshape(-1, 1)          # the documented (R, 1) form
+    elif case["shape"] == 1:
         ref = ref.reshape(-1) if case["ref"] else torch.zeros((0,), dtype=torch.long)
     elif not case["ref"]:
         ref = torch.zeros((0, case["shape"]), dtype=torch.long)
     i2t = None if case.get("id2token") is None else {k: v for k, v in case["id2token"]}
-    back, e = call(token_to_transcript, ref, i2t, case.get("fs"))
-    return {"back": back, "back_exc": e}
+    back, e = ecall(case, token_to_transcript, ("ref", "id2token", "frame_shift_ms"), (ref, i2t, case.get("fs")), (None, None))
+    out = {"back": back, "back_exc": e}
+    if case.get("layout") and e is None:
+        out["back_layout"] = call(token_to_transcript, relayout(ref, case["layout"]), i2t, case.get("fs"))
+    return out
+
+
+LAYOUTS = ["transposed", "offset", "step", "int32", "expand"]
+
+
+def relayout(t, how):
+    """the same logical tensor in another memory layout / integer dtype (values must fit int32 for 'int32')"""
+    import torch
+    if how == "int32":
+        return t.to(torch.int32) if (t.numel() == 0 or int(t.abs().max()) < 2 ** 31) else t
+    if how == "transposed" and t.ndim == 2:
+        return t.t().contiguous().t()
+    if how == "step":
+        big = torch.full(tuple(2 * s for s in t.shape), 77, dtype=t.dtype)
+        v = big[tuple(slice(None, None, 2) for _ in t.shape)]
+        v.copy_(t)
+        return v
+    if how == "expand" and t.ndim >= 1 and t.size(0) > 0 and bool((t == t[:1]).all()):
+        return t[:1].expand(t.shape)
+    # slice of a larger buffer with a storage offset
+    big = torch.full((t.numel() + 5,), 55, dtype=t.dtype)
+    v = big[3:3 + t.numel()].view(t.shape) if t.numel() else big[3:3].view(t.shape)
+    v.copy_(t)
+    return v
 
 
 def terms_tok_back(case, out):
     fs = case.get("fs")
     fsq = "None" if not fs else co(cq(Fraction(fs)))
     rows = [(r[0], r[1], r[2]) if case["shape"] == 3 else (r[0] if isinstance(r, list) else r, -1, -1) for r in case["ref"]]
+    meta = []
+    if "back_layout" in out and out["back_layout"] != (out["back"], out["back_exc"]):
+        meta.append("token_to_transcript: result depends on the memory layout / integer dtype of the tensor (%s)" % case["layout"])
     if out["back_exc"] is not None or len(out["back"]) != len(rows):
-        return {"token_to_transcript(any tensor) = model": "false"}, []
+        return {"token_to_transcript(any tensor) = model": "false"}, meta
     items = []
     for (i, s, e), b in zip(rows, out["back"]):
         if isinstance(b, tuple):
@@ -636,18 +711,42 @@ def terms_tok_back(case, out):
             items.append(f"Plain {coq_tk(b)}")
     i2t = "None" if case.get("id2token") is None else co(cl([cp(cz(k), coq_tk(v)) for k, v in {k: v for k, v in case["id2token"]}.items()]))
     refq = cl([cp(cz(a), cz(b), cz(c)) for a, b, c in rows])
-    return {"token_to_transcript(any tensor) = model": f"check_to_transcript {refq} {i2t} {fsq} {cl(items)}"}, []
+    return {"token_to_transcript(any tensor) = model": f"check_to_transcript {refq} {i2t} {fsq} {cl(items)}"}, meta
+
+
+def g_id(rng):
+    """token ids are arbitrary integers: small, negative (also -1, the boundary marker's value), huge"""
+    r = rng.random()
+    if r < 0.75:
+        return rng.randint(0, 9)
+    return rng.choice([-1, -1, -2, -7, 2 ** 31 - 1, 2 ** 31, 2 ** 40 + 3, -2 ** 35])
 
 
 def g_tok_back(rng):
     shape = rng.choice([3, 3, 3, 1, 1])
     n = rng.choice([0, 1, 2, 4, 6])
     if shape == 3:
-        ref = [[rng.randint(0, 9), rng.choice([-1, -1, 0, 1, 5, 40]), rng.choice([-1, -1, 0, 2, 7, 41])] for _ in range(n)]
+        ref = [[g_id(rng), rng.choice([-1, -1, 0, 1, 5, 40]), rng.choice([-1, -1, 0, 2, 7, 41])] for _ in range(n)]
     else:
-        ref = [[rng.randint(0, 9)] for _ in range(n)] if rng.random() < 0.5 else [rng.randint(0, 9) for _ in range(n)]
-    i2t = rng.choice([None, [[1, "one"], [2, "two"], [5, 50]], [[0, "a"]]])
-    return {"kind": "tok_back", "ref": ref, "shape": shape, "id2token": i2t, "fs": rng.choice([None, 0, 10, 12.5, 0.125])}
+        ref = [[g_id(rng)] for _ in range(n)] if rng.random() < 0.5 else [g_id(rng) for _ in range(n)]
+    i2t = rng.choice([None, [[1, "one"], [2, "two"], [5, 50]], [[0, "a"]], [], [[-1, "neg"], [2 ** 40 + 3, "big"], [0, ""]]])
+    c = {"kind": "tok_back", "ref": ref, "shape": shape, "id2token": i2t, "fs": rng.choice([None, 0, 10, 12.5, 0.125])}
+    if shape == 1 and rng.random() < 0.5:
+        c["col"] = True
+    if rng.random() < 0.5:
+        c["layout"] = rng.choice(LAYOUTS)
+    g_style(rng, c)
+    return c
+
+
+def g_style(rng, c, p=0.3):
+    """entry-point style of the calls of a case: positional (default), by keyword, documented defaults omitted"""
+    r = rng.random()
+    if r < p / 2:
+        c["style"] = "kw"
+    elif r < p:
+        c["style"] = "omit"
+    return c
 
 
 KINDS = {
@@ -702,7 +801,33 @@ def g_trn(rng, wild=False, depth=None):
     for _ in range(n):
         d = rng.choice([0, 1, 2, 3, 4]) if depth is None else depth
         ts.append([g_utt(rng, wild), [g_elem(rng, d, True, wild) for _ in range(rng.choice([0, 1, 2, 3, 4, 6]))]])
-    return {"kind": "trn", "ts": ts, "times": rng.random() < 0.3, "via": rng.choice(["mem", "mem", "disk"])}
+    c = {"kind": "trn", "ts": ts, "times": rng.random() < 0.3, "via": rng.choice(["mem", "mem", "disk"])}
+    if rng.random() < 0.25:
+        c["iter"] = True
+    if rng.random() < 0.2:
+        c["warn"] = True
+    return g_style(rng, c)
+
+
+def g_trn_multialt(rng):
+    """several CLOSED top-level alternates on one line, of different shapes, adjacent or separated by tokens, so that a
+    reader that re-uses the first alternate (or its branch list) for the later ones is visible"""
+    ts = []
+    for _ in range(rng.choice([1, 1, 2])):
+        tr = []
+        k = rng.choice([2, 2, 3, 4])
+        for j in range(k):
+            if j and rng.random() < 0.4:
+                tr.append(g_tok(rng, True))
+            alt = g_elem(rng, rng.choice([1, 1, 2]), True)
+            while isinstance(alt, str):
+                alt = g_elem(rng, rng.choice([1, 2]), True)
+            tr.append(alt)
+        if rng.random() < 0.4:
+            tr.append(g_tok(rng, True))
+        ts.append([g_utt(rng), tr])
+    c = {"kind": "trn", "ts": ts, "times": False, "via": rng.choice(["mem", "mem", "disk"]), "iter": rng.random() < 0.3}
+    return g_style(rng, c, 0.2)
 
 
 SOUP = list("ab {}{}/ () \n") + ["\t", "\xa0", "\u2003", "\x0b", "\x1c", "é"]
@@ -718,7 +843,7 @@ def g_trn_text(rng):
         lines.append(body)
     text = "\n".join(lines) + rng.choice(["", "\n"])
     via = "disk" if ("\r" not in text and rng.random() < 0.3) else "mem"
-    return {"kind": "trn_text", "text": text, "via": via, "warn": rng.random() < 0.3}
+    return {"kind": "trn_text", "text": text, "via": via, "warn": rng.random() < 0.3, "iter": rng.random() < 0.2}
 
 
 def g_trn_pool(rng):
@@ -746,10 +871,15 @@ def g_word(rng, n=(1, 2, 3)):
     return "".join(rng.choice(CW) for _ in range(rng.choice(n)))
 
 
-def g_ctm(rng, wild=False):
+def g_ctm(rng, wild=False, shared=None):
+    """shared=True: waveform names come from a pool of two or three (some a prefix of another), so that several
+    utterances share a waveform on different channels and are adjacent in the sorted file"""
+    if shared is None:
+        shared = rng.random() < 0.3
     ts, ids = [], set()
-    for _ in range(rng.choice([0, 1, 2, 3, 4])):
-        u = g_word(rng)
+    big = rng.random() < 0.15
+    for _ in range(rng.choice([0, 1, 2, 3, 4]) if not shared else rng.choice([2, 3, 4, 5])):
+        u = g_word(rng) if rng.random() < 0.7 else rng.choice(["u", "u1", "u-", "u1a", "U"])
         if u in ids and not (wild and rng.random() < 0.5):
             continue
         ids.add(u)
@@ -757,8 +887,10 @@ def g_ctm(rng, wild=False):
         for _ in range(rng.choice([1, 1, 2, 3, 5]) if not wild else rng.choice([0, 1, 2, 3])):
             s = rng.choice([0, 0, 1, 8, 64, 65, 100, 640, 700])
             s = s if rng.random() < 0.5 else rng.randint(0, 800)
+            if big:     # hours into a recording; still on the 1/64 s grid, far below 2^53
+                s += rng.choice([64 * 3600, 64 * 99999, 2 ** 30])
             d = rng.choice([0, 0, 1, 2, 32, 64])
-            tok = g_word(rng)
+            tok = g_word(rng) if rng.random() < 0.85 else rng.choice([";", "a;b", ";a", "{", "1.5", "-"])
             if rng.random() < 0.3 and tr and len(tr[-1]) == 3:   # ties in start (and sometimes duration)
                 s = tr[-1][1]
                 d = rng.choice([d, tr[-1][2] - tr[-1][1]])
@@ -767,27 +899,39 @@ def g_ctm(rng, wild=False):
                 t = rng.choice([[tok], [tok, -1, 3], [tok, 5, 4], [tok, -2, -1], [tok, 0, 0]])
             tr.append(t)
         ts.append([u, tr])
-    if rng.random() < 0.5:
-        m = rng.choice(["A", "B", "1"])
+    if not shared and rng.random() < 0.5:
+        m = rng.choice(["A", "A", "B", "1"])
         inv = None
     else:
         m, wcs = [], set()
+        wpool = rng.choice([["w", "w1"], ["a", "a-", "ab"], ["x", "x"]])
         for u, _ in ts:
             if wild and rng.random() < 0.15:
                 continue
-            while True:
-                wc = [g_word(rng, (1, 2)), g_word(rng, (1,))]
+            for _ in range(50):
+                if shared:
+                    wc = [rng.choice(wpool), rng.choice(["A", "B", "1", "2", "AB"])]
+                else:
+                    wc = [g_word(rng, (1, 2)), g_word(rng, (1,))]
                 if tuple(wc) not in wcs:
                     break
+            else:
+                wc = [u + "_w", "A"]
             wcs.add(tuple(wc))
             m.append([u, wc])
         rng.shuffle(m)
         inv = [[wc, u] for u, wc in m]
         if wild and inv and rng.random() < 0.3:
             inv.pop(rng.randrange(len(inv)))
+        if wild and rng.random() < 0.15:
+            # an EMPTY mapping is a mapping (every lookup fails), not "no mapping"
+            if rng.random() < 0.5:
+                inv = []
+            else:
+                m = []
     c = {"kind": "ctm", "ts": ts, "utt2wc": m, "wc2utt": inv}
     c["roundtrip"] = ctm_valid(c) and not wild
-    return c
+    return g_style(rng, c)
 
 
 def g_ctm_text(rng):
@@ -844,11 +988,41 @@ def g_tg(rng, wild=False):
     if rng.random() < 0.4:
         c["tier_name"] = rng.choice(["", "words", "a b", "tier-1", "é"])
     c["point_tier"] = rng.choice([None, None, True, False])
-    c["precision"] = rng.choice([0, 1, 2, 3, 3, 4, 5, 6])
+    c["precision"] = rng.choice([0, 1, 2, 3, 3, 4, 5, 6]) if rng.random() < 0.93 else rng.choice([7, 9, 12])
     name = c.get("tier_name", "transcript")
     c["tier_id"] = rng.choice([0, 0, 0, name, name, -1] + ([1, "nope", -2] if wild or rng.random() < 0.1 else []))
     c["fill"] = rng.choice([None, None, "<gap>", "sil", ""])
-    return c
+    return g_style(rng, c)
+
+
+def g_tg_subprec(rng):
+    """every interval is shorter than (or about) one unit of the print precision p, p on both sides of the default 3:
+    whether the tier is an interval or a point tier (point_tier unset) is decided by comparing the times PRINTED WITH p
+    digits - not with 3, not by start == end"""
+    p = rng.choice([0, 1, 2, 4, 4, 5, 5, 6, 6, 3])
+    unit = 10.0 ** -p
+    n = rng.choice([1, 1, 2, 3])
+    tr = []
+    # starts sit well inside a cell of the coarser of the two grids (p digits / 3 digits), so that neither rounding
+    # carries; durations: 0, a fraction of the unit (prints equal), one or a few units (prints differ)
+    coarse = max(unit, 1e-3)
+    off = 0.2 if p <= 3 else 0.1
+    m = rng.randint(0, 4000)
+    for _ in range(n):
+        tok = "".join(rng.choice(TG_TOK) for _ in range(rng.choice([1, 2])))
+        k = rng.choice([0, 0.25, 0.4, 0.6, 1, 1, 2, 3])
+        d = k * unit
+        if p > 3 and d > 0.35e-3:
+            d = 0.3e-3
+        t = (m + off) * coarse
+        tr.append([tok, t, t + d])
+        m += (4 if p <= 3 else 1) + rng.choice([0, 0, 1, 7])
+    c = {"kind": "tg", "tr": tr, "precision": p, "point_tier": None if rng.random() < 0.8 else rng.choice([True, False]),
+         "tier_id": 0, "fill": rng.choice([None, None, "sil"])}
+    if rng.random() < 0.3:
+        c["tier_name"] = "words"
+        c["tier_id"] = rng.choice([0, "words"])
+    return g_style(rng, c, 0.2)
 
 
 def g_tok_case(rng, wild=False):
@@ -860,6 +1034,8 @@ def g_tok_case(rng, wild=False):
     if vocab == "str":
         keys = rng.sample(names, rng.randint(1, len(names)))
         ids = rng.sample(range(0, 12), len(keys))
+        if rng.random() < 0.25:      # arbitrary integers are ids: negative (also -1), beyond int32
+            ids = rng.sample([-1, -2, -9, 0, 2 ** 31, 2 ** 40 + 3, -2 ** 35, 5, 7, 11, 1, 2], len(keys))
         t2i = [[k, i] for k, i in zip(keys, ids)]
         pool = keys + ([rng.choice(names)] if rng.random() < 0.5 else [])
     elif vocab == "int":
@@ -868,14 +1044,24 @@ def g_tok_case(rng, wild=False):
         pool = keys + [rng.randint(0, 9)]
     else:
         t2i, pool = None, list(range(0, 9)) + ([rng.choice(names)] if wild else [])
-    unk = rng.choice([None, None, "<unk>", "zz", 7, 99]) if t2i is not None else rng.choice([None, "<unk>"])
+    unk = rng.choice([None, None, "<unk>", "zz", 7, 99, 0, 0]) if t2i is not None else rng.choice([None, "<unk>"])
+    if t2i is not None and rng.random() < 0.12:
+        # falsy cases: an EMPTY vocabulary is a vocabulary (everything is out of it); the unknown id may be 0
+        if rng.random() < 0.5:
+            t2i = []
+        else:
+            t2i = [[k, (0 if k == "<unk>" else i)] for k, i in t2i if i != 0 or k == "<unk>"]
+            if vocab == "str" and "<unk>" not in [k for k, _ in t2i]:
+                t2i.append(["<unk>", 0])
+            unk = "<unk>" if vocab == "str" else 0
+        pool = pool + ([rng.choice(names)] if vocab == "str" else [rng.randint(0, 9)])
     tr = []
     for _ in range(n):
         tok = rng.choice(pool)
         if rng.random() < timed_p:
             if fs:
                 # regime E: dyadic seconds, so that 1000*s, the half-frame offset and the floor division are exact
-                s = rng.randint(0, 400) / 64 if rng.random() < 0.7 else rng.choice([0.0, 1 / 128, 3 / 256, 1.0, 2.5])
+                s = rng.randint(0, 400) / 64 if rng.random() < 0.7 else rng.choice([0.0, 1 / 128, 3 / 256, 1.0, 2.5, 3600.5, 86400.25])
                 e = s if rng.random() < 0.25 else s + rng.choice([1 / 64, 1 / 128, 1 / 256, 0.25, 1.0, 5 / 1024])
                 tr.append([tok, s, e])
             else:
@@ -884,6 +1070,9 @@ def g_tok_case(rng, wild=False):
         else:
             tr.append(tok)
     c = {"kind": "tok", "tr": tr, "token2id": t2i, "unk": unk, "fs": fs, "skip": rng.random() < 0.2}
+    if rng.random() < 0.35:
+        c["layout"] = rng.choice(LAYOUTS)
+    g_style(rng, c)
     if t2i is not None:
         c["id2token"] = [[i, k] for k, i in t2i]
         if rng.random() < 0.2:
@@ -947,10 +1136,20 @@ def gen_cases(chk):
             c = g(rng)
             c["stream"] = "random"
             cases.append(c)
+    # robustness audit: situations that the broad streams reach only rarely, each with a fair share of its own
+    audit = [(g_tg_subprec, 50), (g_trn_multialt, 40), (lambda r: g_ctm(r, shared=True), 50)]
+    for g, n in audit:
+        for _ in range(n * mult):
+            c = g(rng)
+            c["stream"] = "audit"
+            cases.append(c)
     for _ in range(16 * (4 if thorough else 1)):
         c = g_trn_pool(rng)
         c["stream"] = "pool"
         cases.append(c)
+    only = os.environ.get("C11_KINDS")      # developer switch: restrict a run to some kinds
+    if only:
+        cases = [c for c in cases if c["kind"] in only.split(",")]
     return cases
 
 
@@ -993,6 +1192,19 @@ def evaluate(chk, cases, tag="cases"):
             terms, meta = {"implementation output has the documented shape": "false"}, []
         per.append((list(terms.keys()), meta, out))
         flat.extend(terms.values())
+    if tag == "cases":
+        # call history (robustness audit): the same call after many unrelated calls on the same module gives the same
+        # result - every 9th case (pools excepted) is run a second time once all cases have run
+        for k in range(0, len(cases), 9):
+            c = cases[k]
+            if c["kind"] == "trn_pool" or "harness_exception" in per[k][2]:
+                continue
+            try:
+                again = KINDS[c["kind"]][0](chk, c)
+            except Exception as e:  # noqa: BLE001
+                again = {"harness_exception": repr(e)}
+            if repr(again) != repr(per[k][2]):
+                per[k][1].append("the same call gave a different result when repeated after other calls (state kept between calls)")
     vals = coq_eval_bools(chk.workdir, IMPORTS, flat, shard=150, tag=tag)
     res, i = [], 0
     for labels, meta, out in per:
